@@ -136,6 +136,12 @@ def run(unit, seed=0, rlimit=None, extra=None, only_fn=None, multiple_errors=8):
     res["gen_file"] = out
     res["meta"] = meta
     obs = obligations_of(unit, text, meta)
+    # every labelled clause of the templates must have become an obligation (a label the scanner cannot attach to a function would silently drop a clause)
+    _have = {k.split("/", 1)[1] for k, v in obs.items() if v["kind"] in ("clause", "lemma")}
+    _lost = [l for l in set(meta["labels"].values()) if not any(h == l or h.endswith("::" + l.split("::")[-1]) for h in _have)]
+    if _lost:
+        res["status"] = "tool-error"
+        res["undecided"].append("labelled clause without obligation (template/scanner problem): " + ", ".join(sorted(_lost)))
     res["obligations"] = obs
     cmd = ["verus", out, "--triggers-mode", "silent", "--output-json", "--time", "--error-format=json",
            "--multiple-errors", str(multiple_errors), "--num-threads", "8"]
